@@ -87,6 +87,12 @@ namespace fastscapelib
 
             for (size_type idx : graph_impl.base_levels())
             {
+                // masked nodes are not part of the domain
+                if (graph_impl.is_masked(idx))
+                {
+                    continue;
+                }
+
                 open.emplace(pflood_node<FG, elev_t>(idx, elevation_flat(idx)));
                 closed(idx) = true;
             }
